@@ -304,6 +304,37 @@ def codec_names_rule(prog, run, R="R8"):
             run.check(got.get(name) == want, R, "%s name `%s`" % (short, name), "-> %s" % want, "the documented name `%s` is %s, documented: %s" % (name, ("mapped to " + got[name]) if name in got else "not accepted", want))
     run.floor(R, n, 15, "documented codec names")
 
+def string_parsers_rule(run, u):
+    """clap's derive turns `#[arg(value_parser = f)]` into `Arg::value_parser::<fn item f>(..)` inside augment_args / augment_subcommands;
+    the default is a parser type of clap itself (`clap::builder::*`).  A crate-local function or closure producing a `String` stands
+    between the command line and `set_title` / `set_language` & co: whatever it trims, re-cases or refuses, the library given the same
+    text would have written as typed."""
+    n = 0
+    seen = {}
+    for p, b in sorted(u.bodies.items()):
+        np_ = mir.norm(p)
+        if "augment_args" not in np_ and "augment_subcommands" not in np_:
+            continue
+        for bb, t, name, info in mir.calls(b):
+            if not (name and mir.norm(name).endswith("Arg::value_parser")):
+                continue
+            n += 1
+            ci = (t["func"].get("callee") or {}) if isinstance(t.get("func"), dict) else {}
+            ty = " ".join(str(x) for x in (ci.get("substs") or []))
+            own = "{" in ty or "closure" in ty or not (ty.startswith("clap::") or ty.startswith("clap_builder::"))
+            if not own:
+                continue
+            stringy = "std::string::String" in ty
+            k = "%s value parser %s" % (np_.split("::")[-1], ty[:90])
+            seen[k] = seen.get(k, 0) + 1
+            if seen[k] > 1:
+                continue
+            run.check(not stringy, "R9", k, "command-specific parser of a non-text option (typed value, not bytes handed to the library)",
+                      "a string-valued option is parsed by the command's own function `%s` instead of clap's String parser: the text the user typed is rewritten or refused before it reaches the library, which would have written it as typed" % ty[:140], mir.loc_of(t))
+    run.check(n >= 20, "R9", "argument definitions", "%d Arg::value_parser calls examined in the derive-generated definitions, none string-valued and command-specific" % n,
+              "only %d Arg::value_parser calls found in the derive-generated argument definitions (anchor; fail closed)" % n, how="count")
+
+
 def check(prog, run):
     run.rule("R1", "the output File flows only into the library builder; no other filesystem write in the mux command")
     run.rule("R2", "builder/muxer arguments are sourced from the matching CLI option (documented defaults); single frame at t=0, key=true")
@@ -356,6 +387,8 @@ def check(prog, run):
     # ---- R6: input decoding is loud
     run.rule("R6", "input decoding fails loudly: on the mux path no Result is discarded through .ok()/unwrap_or*/err() (a malformed input must stop the command)")
     loud_rule(run, u, g, mux)
+    run.rule("R9", "text options reach the library as typed: in the derive-generated argument definitions every string-valued option uses clap's own String parser - no command-specific value parser rewrites or filters a string between argv and the library setter")
+    string_parsers_rule(run, u)
     run.rule("R8", "codec names and aliases: every documented name is accepted case-insensitively and names the right codec (FromStr tables)")
     codec_names_rule(prog, run)
     run.rule("R7", "reported frame counts: every `count += 1` on the mux path is unconditional in its function, and each successful library frame write is followed by exactly one of them (video and audio distinct)")
